@@ -47,6 +47,17 @@ fn app() -> App<()> {
             Response::new(StatusCode::OK, "slow-done")
         })
         .with_stateless_route("/big*", |_r: Request| async { Response::new(StatusCode::OK, vec![b'x'; 6 * 1024 * 1024]) })
+        // an open WebSocket: the handler owns the connection until the client goes away
+        .with_websocket_route("/ws*", |_r: Request, mut stream: humphrey::stream::Stream, _s: std::sync::Arc<()>| async move {
+            use tokio::io::{AsyncReadExt, AsyncWriteExt};
+            let _ = stream.write_all(b"HTTP/1.1 101 Switching Protocols\r\nUpgrade: websocket\r\nConnection: Upgrade\r\n\r\n").await;
+            let mut buf = [0u8; 256];
+            while let Ok(n) = stream.read(&mut buf).await {
+                if n == 0 {
+                    break;
+                }
+            }
+        })
         .with_cors_config(
             "/cors*",
             Cors::new().with_origin("https://a.example").with_origin("https://b.example").with_method(Method::Get).with_method(Method::Post).with_header("X-H").with_header("X-I"),
@@ -218,6 +229,9 @@ pub fn dispatch(rt: &tokio::runtime::Runtime, name: &str, args: &[&str]) -> Opti
                     }
                     'W' => {
                         let _ = s.write_all(b"GET /big HTTP/1.1\r\n\r\n");
+                    }
+                    'O' => {
+                        let _ = s.write_all(b"GET /ws HTTP/1.1\r\nHost: x\r\nUpgrade: websocket\r\nConnection: Upgrade\r\nSec-WebSocket-Key: dGhlIHNhbXBsZSBub25jZQ==\r\n\r\n");
                     }
                     _ => {}
                 }
